@@ -24,7 +24,10 @@ static const char* ALG[] = {"fastCover", "trainFromBuffer", "cover", "optimizeCo
 static size_t build_samples(int count, int ssize, int content, int varySizes) {
     static const u8 motif[32] = "the quick brown fox jumps over  "; size_t total = 0; uint32_t s = 99;
     for (int i = 0; i < count; i++) {
-        size_t n = (size_t)ssize; if (varySizes && ssize > 8) n = (size_t)ssize - (size_t)(i * 37 % (ssize / 2));
+        size_t n = (size_t)ssize; if (varySizes == 1 && ssize > 8) n = (size_t)ssize - (size_t)(i * 37 % (ssize / 2));
+        /* size profiles 2 / 3: the part of the corpus the optimisers train on (the first 75 % of the samples) totals 7 / 3 bytes - one below the smallest d-mer / far below -
+         * while the corpus as a whole is large */
+        if (varySizes >= 2) { int nt = count * 3 / 4, tot = varySizes == 2 ? 7 : 3; if (i < nt) n = (i < tot - 1 && i < nt - 1) ? 1 : (i == (tot - 1 < nt - 1 ? tot - 1 : nt - 1)) ? (size_t)(tot - i) : 0; }
         g_sizes[i] = n; u8* p = g_samples + total;
         for (size_t k = 0; k < n; k++) {
             s = s * 1103515245u + 12345u;
@@ -41,7 +44,7 @@ static size_t build_samples(int count, int ssize, int content, int varySizes) {
 }
 
 static void body(void) {
-    int ci = vx_deviate(6), si = vx_deviate(7), content = vx_deviate(4), vary = vx_deviate(2), capi = vx_deviate(10), alg = vx_choose(8);
+    int ci = vx_deviate(6), si = vx_deviate(7), content = vx_deviate(4), vary = vx_deviate(4), capi = vx_deviate(10), alg = vx_choose(8);
     int count = COUNTS[ci], ssize = SSIZES[si]; size_t cap = CAPS[capi];
     /* tuning parameters at {typical, min-1, min, > corpus} */
     static const unsigned KS[] = {64, 0, 1, 5000000}, DS[] = {8, 0, 6, 16, 5}, FS[] = {12, 0, 1, 31, 32}, ACC[] = {1, 0, 10, 11}, STEPS[] = {4, 1, 0};
